@@ -1097,13 +1097,17 @@ impl<'p> Host<'p> {
 }
 
 /// Run `f` as one simulated case: fresh thread, entropy seam seeded, story seed
-/// and fuel installed. Returns `None` if the thread died outside `catch_unwind`.
+/// and fuel installed. `Err(true)` = the case did not finish within `timeout_s`
+/// (its thread is still running: the caller must end the process soon);
+/// `Err(false)` = the thread died outside `catch_unwind`.
 pub fn run_case_thread<T: Send + 'static>(
     hash_seed: u64,
     story_seed: i32,
     fuel: u64,
+    timeout_s: u64,
     f: impl FnOnce() -> T + Send + 'static,
-) -> Option<T> {
+) -> Result<T, bool> {
+    let (tx, rx) = std::sync::mpsc::channel::<T>();
     let h = std::thread::Builder::new()
         .stack_size(64 << 20)
         .spawn(move || {
@@ -1112,8 +1116,19 @@ pub fn run_case_thread<T: Send + 'static>(
             bladeink::verif::set_fuel(Some(fuel));
             bladeink::verif::reset_steps();
             let _ = bladeink::verif::take_probes();
-            f()
+            let r = f();
+            let _ = tx.send(r);
         })
-        .ok()?;
-    h.join().ok()
+        .map_err(|_| false)?;
+    match rx.recv_timeout(std::time::Duration::from_secs(timeout_s)) {
+        Ok(v) => {
+            let _ = h.join();
+            Ok(v)
+        }
+        Err(std::sync::mpsc::RecvTimeoutError::Timeout) => Err(true),
+        Err(std::sync::mpsc::RecvTimeoutError::Disconnected) => {
+            let _ = h.join();
+            Err(false)
+        }
+    }
 }
